@@ -27,6 +27,10 @@ from . import defuse as DU
 
 OD = "pyxel/observation/observation_dask.py"
 LEVEL = "other"
+BOUNDED = {
+    r'^task': 'tasks with 1..2 swept parameters; processor family as in C06',
+    r'^parallel\.params': 'parameter spaces as in C05',
+}      # unit-name / obligation-name patterns -> the family these obligations are proved for
 TRUSTED = ["NOT DECIDED by this technique: independence from the dask scheduler, worker count and completion order (quantifier over schedules; concurrency is outside "
            "sequential contracts)", "dask calls the task once per chunk and places outputs by chunk position; executor.map preserves order; pygmo evaluation is order-insensitive",
            "threads share the process-wide numpy generator when a seed is set (unverified premise of non-interference)"]
